@@ -61,6 +61,37 @@ func init() {
 			{Name: "advanced window has the wrong length", ExpectRule: "C33.R3", Edits: []Edit{
 				{File: f, Old: "\t\twindowStart = cycleStart.Add(offset)\n\t\twindowEnd = windowStart.Add(w.cfg.WindowLength)\n\t}\n\n\treturn windowStart, windowEnd", New: "\t\twindowStart = cycleStart.Add(offset)\n\t\twindowEnd = windowStart.Add(w.cfg.CycleLength)\n\t}\n\n\treturn windowStart, windowEnd"},
 			}},
+			// round 2
+			{Name: "cycle start through Duration.Truncate (rounds toward zero)", ExpectRule: "C33.R1", Edits: []Edit{
+				{File: f, Old: "\tcycleNum := elapsed / w.cfg.CycleLength\n" + floorOld + "\t\t// Go's integer division truncates toward zero. For instants before\n\t\t// the epoch that would select the following cycle: take the floor.\n\t\tcycleNum--\n\t}\n\treturn w.cfg.Epoch.Add(cycleNum * w.cfg.CycleLength)", New: "\treturn w.cfg.Epoch.Add(elapsed.Truncate(w.cfg.CycleLength))"},
+			}},
+			{Name: "cycle start through Duration.Round", ExpectRule: "C33.R1", ExpectKey: "rounding", Edits: []Edit{
+				{File: f, Old: "\tcycleNum := elapsed / w.cfg.CycleLength\n" + floorOld + "\t\t// Go's integer division truncates toward zero. For instants before\n\t\t// the epoch that would select the following cycle: take the floor.\n\t\tcycleNum--\n\t}\n\treturn w.cfg.Epoch.Add(cycleNum * w.cfg.CycleLength)", New: "\treturn w.cfg.Epoch.Add(elapsed.Round(w.cfg.CycleLength))"},
+			}},
+			{Name: "Truncate corrected in the wrong direction", ExpectRule: "C33.R1", Edits: []Edit{
+				{File: f, Old: "\tcycleNum := elapsed / w.cfg.CycleLength\n" + floorOld + "\t\t// Go's integer division truncates toward zero. For instants before\n\t\t// the epoch that would select the following cycle: take the floor.\n\t\tcycleNum--\n\t}\n\treturn w.cfg.Epoch.Add(cycleNum * w.cfg.CycleLength)", New: "\ttrunc := elapsed.Truncate(w.cfg.CycleLength)\n\tif trunc > elapsed {\n\t\ttrunc += w.cfg.CycleLength\n\t}\n\treturn w.cfg.Epoch.Add(trunc)"},
+			}},
+			{Name: "default window length filled in after the clamp", ExpectRule: "C33.R2", ExpectKey: "WindowLength", Edits: []Edit{
+				{File: f, Old: "\t// Ensure Epoch is set\n", New: "\tif cfg.WindowLength <= 0 {\n\t\tcfg.WindowLength = 30 * time.Second\n\t}\n\t// Ensure Epoch is set\n"},
+			}},
+			{Name: "cycle length shortened after the clamp", ExpectRule: "C33.R2", ExpectKey: "WindowLength", Edits: []Edit{
+				{File: f, Old: "\t// Ensure Epoch is set\n", New: "\tif cfg.CycleLength > time.Hour {\n\t\tcfg.CycleLength = time.Hour\n\t}\n\t// Ensure Epoch is set\n"},
+			}},
+			{Name: "clamp applied to a copy, the unclamped configuration is stored", ExpectRule: "C33.R2", ExpectKey: "WindowLength", Edits: []Edit{
+				{File: f, Old: "\tif cfg.WindowLength >= cfg.CycleLength {\n\t\tcfg.WindowLength = cfg.CycleLength / 6 // ~16% of cycle\n\t}\n", New: "\tchecked := cfg\n\tif checked.WindowLength >= checked.CycleLength {\n\t\tchecked.WindowLength = checked.CycleLength / 6\n\t}\n"},
+			}},
+			{Name: "rewrite: Truncate with a floor correction", Edits: []Edit{
+				{File: f, Old: "\tcycleNum := elapsed / w.cfg.CycleLength\n" + floorOld + "\t\t// Go's integer division truncates toward zero. For instants before\n\t\t// the epoch that would select the following cycle: take the floor.\n\t\tcycleNum--\n\t}\n\treturn w.cfg.Epoch.Add(cycleNum * w.cfg.CycleLength)", New: "\ttrunc := elapsed.Truncate(w.cfg.CycleLength)\n\tif trunc > elapsed {\n\t\ttrunc -= w.cfg.CycleLength\n\t}\n\treturn w.cfg.Epoch.Add(trunc)"},
+			}},
+			{Name: "rewrite: defaults filled in before the clamp", Edits: []Edit{
+				{File: f, Old: "\t// Ensure WindowLength < CycleLength\n", New: "\tif cfg.WindowLength <= 0 {\n\t\tcfg.WindowLength = 30 * time.Second\n\t}\n\t// Ensure WindowLength < CycleLength\n"},
+			}},
+			{Name: "rewrite: defaults after a first clamp, clamp repeated", Edits: []Edit{
+				{File: f, Old: "\t// Ensure Epoch is set\n", New: "\tif cfg.WindowLength <= 0 {\n\t\tcfg.WindowLength = 30 * time.Second\n\t}\n\tif cfg.WindowLength >= cfg.CycleLength {\n\t\tcfg.WindowLength = cfg.CycleLength / 6\n\t}\n\t// Ensure Epoch is set\n"},
+			}},
+			{Name: "rewrite: next cycle through cycleStart(now + CycleLength)", Edits: []Edit{
+				{File: f, Old: "\tif now.After(windowEnd) {\n\t\tcycleStart = cycleStart.Add(w.cfg.CycleLength)\n", New: "\tif now.After(windowEnd) {\n\t\tcycleStart = w.cycleStart(now.Add(w.cfg.CycleLength))\n"},
+			}},
 			// rewrites
 			{Name: "rewrite: floor via sign test and remainder", Edits: []Edit{
 				{File: f, Old: floorOld, New: "\tif !(elapsed >= 0) && elapsed%w.cfg.CycleLength != 0 {\n"},
@@ -209,6 +240,9 @@ func (fl *c33floor) signAtom(cond ssa.Value, sign int, remZero bool) (val, known
 		}
 		// q*cycle compared with elapsed: truncation error has the sign of the remainder, negated
 		isQC := func(v ssa.Value) bool {
+			if fl.isTrunc(v) {
+				return true
+			}
 			fs := kit.FlattenMul(v)
 			return len(fs) == 2 && ((fl.isQuo(fs[0]) && fl.isCycle(fs[1])) || (fl.isQuo(fs[1]) && fl.isCycle(fs[0])))
 		}
@@ -285,6 +319,18 @@ func (cx *c33ctx) ruleFloor() {
 	if !r.Require(fl.hasDivision(), "anchor-unresolved: no division or remainder of the elapsed time by CycleLength in %s", key) {
 		return
 	}
+	// rounding to the nearest multiple can never be a floor
+	var rounds *ssa.Call
+	kit.Instrs(fl.fn, func(in ssa.Instruction) {
+		if v, ok := in.(ssa.Value); ok {
+			if c := fl.roundCall(v); c != nil {
+				rounds = c
+			}
+		}
+	})
+	if rounds != nil {
+		r.Violation("C33.R1", key+" rounding", p.Pos(rounds.Pos()), "the elapsed time is rounded to the nearest multiple of CycleLength: in the second half of every cycle the following cycle is selected and NextWindow skips a window that has not ended")
+	}
 	// tier 1: a sign-sensitive branch exists
 	nSign := 0
 	kit.Instrs(fl.fn, func(in ssa.Instruction) {
@@ -305,7 +351,7 @@ func (cx *c33ctx) ruleFloor() {
 	r.Count("sign_sensitive_branches_in_cycle_start", nSign)
 	r.Decide(nSign > 0, "C33.R1", key+" sign handling", pos,
 		"the cycle computation branches on the sign of the elapsed time / its remainder",
-		"the cycle index is the truncating quotient of a possibly negative elapsed time with no sign handling: before the epoch the following cycle is selected and NextWindow skips the earliest window that has not ended")
+		"the cycle is obtained by truncation toward zero (integer division / Duration.Truncate) of a possibly negative elapsed time with no sign handling: before the epoch the following cycle is selected and NextWindow skips the earliest window that has not ended")
 	if nSign == 0 {
 		return
 	}
@@ -354,12 +400,31 @@ func (cx *c33ctx) ruleFloor() {
 func (fl *c33floor) hasDivision() bool {
 	found := false
 	kit.Instrs(fl.fn, func(in ssa.Instruction) {
-		if v, ok := in.(ssa.Value); ok && (fl.isQuo(v) || fl.isRem(v)) {
+		if v, ok := in.(ssa.Value); ok && (fl.isQuo(v) || fl.isRem(v) || fl.isTrunc(v) || fl.roundCall(v) != nil) {
 			found = true
 		}
 	})
 	return found
 }
+
+// durCall: v is elapsed.<name>(cycle) on time.Duration.
+func (fl *c33floor) durCall(v ssa.Value, name string) *ssa.Call {
+	c, ok := kit.StripConv(v).(*ssa.Call)
+	if !ok {
+		return nil
+	}
+	cal := kit.CalleeOf(c)
+	if cal.Pkg == "time" && cal.Recv == "Duration" && cal.Name == name && len(c.Call.Args) == 2 && fl.isElapsed(c.Call.Args[0]) && fl.isCycle(c.Call.Args[1]) {
+		return c
+	}
+	return nil
+}
+
+// isTrunc: elapsed.Truncate(cycle) = q*cycle with q the quotient truncated toward zero.
+func (fl *c33floor) isTrunc(v ssa.Value) bool { return fl.durCall(v, "Truncate") != nil }
+
+// roundCall: elapsed.Round(cycle) rounds to the nearest multiple - never a floor.
+func (fl *c33floor) roundCall(v ssa.Value) *ssa.Call { return fl.durCall(v, "Round") }
 
 // adjustment resolves the cycle index in the returned value along path to q+adj.
 func (fl *c33floor) adjustment(ret ssa.Value, path []*ssa.BasicBlock) (int64, bool) {
@@ -368,6 +433,9 @@ func (fl *c33floor) adjustment(ret ssa.Value, path []*ssa.BasicBlock) (int64, bo
 	if c := c33TimeCall(ret, "Add"); c != nil {
 		if !kit.IsLoadOfField(c.Call.Args[0], fl.cx.epochF) {
 			return 0, false
+		}
+		if adj, ok := fl.truncForm(c.Call.Args[1], path); ok {
+			return adj, true
 		}
 		fs := kit.FlattenMul(c.Call.Args[1])
 		if len(fs) != 2 {
@@ -420,6 +488,52 @@ func (fl *c33floor) adjustment(ret ssa.Value, path []*ssa.BasicBlock) (int64, bo
 				return 0, false
 			}
 			idx = x.X
+		default:
+			return 0, false
+		}
+	}
+	return 0, false
+}
+
+// truncForm resolves a duration of the shape elapsed.Truncate(cycle) [+- cycle] along path to
+// (truncating quotient + adj) * cycle.
+func (fl *c33floor) truncForm(d ssa.Value, path []*ssa.BasicBlock) (int64, bool) {
+	var adj int64
+	for depth := 0; depth < 8; depth++ {
+		d = kit.StripConv(d)
+		if fl.isTrunc(d) {
+			return adj, true
+		}
+		switch x := d.(type) {
+		case *ssa.Phi:
+			var pred *ssa.BasicBlock
+			for i, b := range path {
+				if b == x.Block() && i > 0 {
+					pred = path[i-1]
+				}
+			}
+			found := false
+			for i, pb := range x.Block().Preds {
+				if pb == pred {
+					d, found = x.Edges[i], true
+				}
+			}
+			if !found {
+				return 0, false
+			}
+		case *ssa.BinOp:
+			if !fl.isCycle(x.Y) {
+				return 0, false
+			}
+			switch x.Op {
+			case token.SUB:
+				adj--
+			case token.ADD:
+				adj++
+			default:
+				return 0, false
+			}
+			d = x.X
 		default:
 			return 0, false
 		}
@@ -516,9 +630,10 @@ func (cx *c33ctx) constructorClamps(acc kit.FieldAccess) (bool, string) {
 	}
 	why := "no comparison of WindowLength with CycleLength dominates the store of the configuration"
 	var found bool
+	var cands []c33clamp
 	kit.Instrs(acc.Fn, func(in ssa.Instruction) {
 		ifi, ok := in.(*ssa.If)
-		if !ok || found {
+		if !ok {
 			return
 		}
 		cond, flip := ifi.Cond, false
@@ -592,11 +707,67 @@ func (cx *c33ctx) constructorClamps(acc kit.FieldAccess) (bool, string) {
 		// the edge block must be entered only from this If (otherwise the rewrite is not tied to the test)
 		if fixed && len(blk.Preds) == 1 {
 			found, why = true, "WindowLength > CycleLength is replaced by a proper fraction of CycleLength before the configuration is stored"
-		} else {
+			cands = append(cands, c33clamp{ifi, blk})
+		} else if !found {
 			why = detail
 		}
 	})
-	return found, why
+	if !found || len(cands) == 0 {
+		return found, why
+	}
+	lateWhy := ""
+	for _, cd := range cands {
+		if w := cx.lateWrites(acc, local, cd.ifi, cd.blk); w == "" {
+			return true, why
+		} else {
+			lateWhy = w
+		}
+	}
+	return false, lateWhy
+}
+
+type c33clamp struct {
+	ifi *ssa.If
+	blk *ssa.BasicBlock
+}
+
+// lateWrites reports a write of the checked fields between the clamp and the store of the
+// configuration ("" if none).
+func (cx *c33ctx) lateWrites(acc kit.FieldAccess, local ssa.Value, clampIf *ssa.If, clampBlk *ssa.BasicBlock) string {
+	// the check must be the last word: no write of WindowLength / CycleLength (or of the whole local)
+	// between the comparison and the store of the configuration, except the clamp's own rewrite
+	late := ""
+	kit.Instrs(acc.Fn, func(in ssa.Instruction) {
+		st, ok := in.(*ssa.Store)
+		if !ok || st.Block() == clampBlk || ssa.Instruction(st) == acc.Instr {
+			return
+		}
+		hit := st.Addr == local
+		if fa, ok := st.Addr.(*ssa.FieldAddr); ok && fa.X == local {
+			if f := kit.FieldOfAddr(fa); f == cx.windowF || f == cx.cycleF {
+				hit = true
+			}
+		}
+		if hit && kit.CanReach(clampIf, st) && kit.CanReach(st, acc.Instr) {
+			late = cx.p.Pos(st.Pos())
+		}
+	})
+	// the local's address handed to a callee after the check may rewrite it as well
+	kit.Instrs(acc.Fn, func(in ssa.Instruction) {
+		c, ok := in.(ssa.CallInstruction)
+		if !ok {
+			return
+		}
+		for _, a := range c.Common().Args {
+			if a == local && kit.CanReach(clampIf, in) && kit.CanReach(in, acc.Instr) {
+				late = cx.p.Pos(in.Pos())
+			}
+		}
+	})
+	if late != "" {
+		return "WindowLength/CycleLength is written at " + late + " after the WindowLength-vs-CycleLength check and is not checked again"
+	}
+	return ""
 }
 
 // ---------------- R3
@@ -676,8 +847,17 @@ func (cx *c33ctx) lin(v ssa.Value, now ssa.Value, depth int) (c33lin, bool) {
 		return c33lin{}, false
 	}
 	if c, ok := v.(*ssa.Call); ok {
-		if cal := kit.CalleeOf(c); cal.Static != nil && cal.Static == cx.cycleStart && len(c.Call.Args) == 2 && c.Call.Args[1] == now {
-			return c33lin{base: c, terms: map[string]int{}}, true
+		if cal := kit.CalleeOf(c); cal.Static != nil && cal.Static == cx.cycleStart && len(c.Call.Args) == 2 {
+			if c.Call.Args[1] == now {
+				return c33lin{base: now, terms: map[string]int{}}, true
+			}
+			// cycleStart(now + k*CycleLength) = cycleStart(now) + k*CycleLength
+			if a := c33TimeCall(c.Call.Args[1], "Add"); a != nil && a.Call.Args[0] == now {
+				terms := map[string]int{}
+				if cx.dur(a.Call.Args[1], 1, terms, 0) && terms["W"] == 0 && terms["off"] == 0 {
+					return c33lin{base: now, terms: terms}, true
+				}
+			}
 		}
 		if a := c33TimeCall(c, "Add"); a != nil {
 			l, ok := cx.lin(a.Call.Args[0], now, depth+1)
